@@ -103,18 +103,25 @@ func eval1(c Case) (evid.Verdict, bool) {
 			return evid.Fail("harness", "reference: %v", err)
 		}
 		sigv := fmt.Sprintf("value:cksum%d:%s", c.Ck, usageClass(c.Usage))
-		// the data is the front of a longer buffer filled with a pattern: nothing behind it, and nothing in it, may change
-		dbuf := append(append(make([]byte, 0, len(data)+48), data...), bytes.Repeat([]byte{0xa5}, 48)...)
-		kb0 := append([]byte{}, key...)
-		got, err := et.GetChecksumHash(key, dbuf[:len(data)], c.Usage)
+		// the data is the front of a record the caller holds (the rest is filled with a pattern): the checksum of the part,
+		// then the checksum of the whole record and the checksum of the part again must all be the RFC values
+		rec := append(append(make([]byte, 0, len(data)+48), data...), bytes.Repeat([]byte{0xa5}, 48)...)
+		recWant, err := ref.Checksum(c.Ck, key, c.Usage, rec)
+		if err != nil {
+			return evid.Fail("harness", "reference checksum failed: %v", err)
+		}
+		got, err := et.GetChecksumHash(key, rec[:len(data)], c.Usage)
 		if err != nil {
 			return evid.Fail(sigv, "GetChecksumHash failed: %v", err)
 		}
-		if !bytes.Equal(dbuf[:len(data)], data) || !bytes.Equal(dbuf[len(data):], bytes.Repeat([]byte{0xa5}, 48)) || !bytes.Equal(kb0, key) {
-			return evid.Fail(fmt.Sprintf("input-modified:cksum%d", c.Ck), "GetChecksumHash changed the key or data buffer it was given, or wrote behind the data slice")
-		}
 		if !bytes.Equal(got, want) {
 			return evid.Fail(sigv, "GetChecksumHash = %x, RFC value %x", got, want)
+		}
+		if g2, err := et.GetChecksumHash(key, rec, c.Usage); err != nil || !bytes.Equal(g2, recWant) {
+			return evid.Fail("record-after-part:"+sigv, "after the checksum of the first %d octets of a record had been computed, GetChecksumHash over the whole record = %x (%v), RFC value %x", len(data), g2, err, recWant)
+		}
+		if g3, err := et.GetChecksumHash(key, rec[:len(data)], c.Usage); err != nil || !bytes.Equal(g3, want) {
+			return evid.Fail("again:"+sigv, "second GetChecksumHash over the same data and key buffers = %x (%v), RFC value %x", g3, err, want)
 		}
 		sig := fmt.Sprintf("verify:%s:cksum%d", c.Variant, c.Ck)
 		vkey, vdata, vusage, pres := key, data, c.Usage, append([]byte{}, want...)
@@ -165,13 +172,13 @@ func eval1(c Case) (evid.Verdict, bool) {
 		default:
 			return evid.Fail("harness", "bad variant %q", c.Variant)
 		}
-		kb, db, pb := append([]byte{}, vkey...), append([]byte{}, vdata...), append([]byte{}, pres...)
 		ok := et.VerifyChecksum(vkey, vdata, pres, vusage)
-		if !bytes.Equal(kb, vkey) || !bytes.Equal(db, vdata) || !bytes.Equal(pb, pres) {
-			return evid.Fail(fmt.Sprintf("input-modified:cksum%d", c.Ck), "VerifyChecksum changed the key, data or checksum buffer it was given")
-		}
 		if ok != expect {
 			return evid.Fail(sig, "VerifyChecksum(%s presentation %x; correct %x) = %v, want %v", c.Variant, pres, want, ok, expect)
+		}
+		// the verdict is about the values: asking again with the same buffers gives the same answer
+		if ok := et.VerifyChecksum(vkey, vdata, pres, vusage); ok != expect {
+			return evid.Fail("again:"+sig, "second VerifyChecksum with the same buffers (%s presentation %x; correct %x) = %v, want %v", c.Variant, pres, want, ok, expect)
 		}
 		if c.Ck != ref.CkRC4 {
 			// the package-level helper of the simplified profile (exported API) must agree
